@@ -46,7 +46,7 @@ for o in out:
     else:
         br[g[-1]] += 1
 print("model errors:", dict(errs))
-print("model branch ids (surface 1-7, +10 loop, +20 back-up reached surface, +40 bund re-storage,"
+print("model branch ids (surface 1-9, +10 loop, +20 back-up reached surface, +40 bund re-storage,"
       " +80 re-storage overtopped):", dict(sorted(br.items())))
 
 # --- whole runs ---
